@@ -103,6 +103,149 @@ let rec print_expr (e : expr) : string =
   | Un (p, op, x) -> Printf.sprintf "U %d %d %s" (int_of_nat p) (int_of_n op) (print_expr x)
   | Bin (p, op, l, r) -> Printf.sprintf "B %d %d %s %s" (int_of_nat p) (int_of_n op) (print_expr l) (print_expr r)
 
+
+(* ---- C27 over the primary-expression grammar: expressions in prefix notation
+     I p hex | L p k hex | U p op e | B p op e e | C p v n e e*n | X p e e
+   | S p full e oe oe oe | D p hex e | A p e oe | K p oe n (oe e)*n | M p oe e
+   | s p e | a p oe e | c p dir e | F p macro v np (on oe)*np nr (on oe)*nr
+   | T p nf (nn hex*nn e hex)*nf | N p | d p e e | R p hex | f p
+   oe ::= ~ | + e     on ::= ~ | + hex     hex: - for the empty string ---- *)
+let hx (h : string) : n list = if h = "-" then [] else bytes_of_hex h
+let xh (l : n list) : string = if l = [] then "-" else hex_of_bytes l
+
+let parse_ex (toks : string array) : ex =
+  let pos = ref 0 in
+  let next () = if !pos < Array.length toks then (let t = toks.(!pos) in incr pos; t) else raise (Bad "eof") in
+  let num () = int_of_string (next ()) in
+  let nt () = nat_of_int (num ()) in
+  let nn () = n_of_int (num ()) in
+  let bl () = (num ()) <> 0 in
+  let rec go () : ex =
+    match next () with
+    | "I" -> let p = nt () in XIdent (p, hx (next ()))
+    | "L" -> let p = nt () in let k = nn () in XLit (p, k, hx (next ()))
+    | "U" -> let p = nt () in let op = nn () in XUn (p, op, go ())
+    | "B" -> let p = nt () in let op = nn () in let l = go () in let r = go () in XBin (p, op, l, r)
+    | "C" -> let p = nt () in let v = bl () in let n = num () in let f = go () in
+      let args = List.init n (fun _ -> ()) |> List.map (fun () -> go ()) in XCall (p, f, args, v)
+    | "X" -> let p = nt () in let x = go () in let i = go () in XIndex (p, x, i)
+    | "S" -> let p = nt () in let full = bl () in let x = go () in let a = opt () in let b = opt () in let c = opt () in
+      XSlicing (p, x, a, b, c, full)
+    | "D" -> let p = nt () in let name = hx (next ()) in XSel (p, go (), name)
+    | "A" -> let p = nt () in let x = go () in let t = opt () in XTypeAssert (p, x, t)
+    | "K" -> let p = nt () in let t = opt () in let n = num () in
+      let kvs = List.init n (fun _ -> ()) |> List.map (fun () -> let k = opt () in let v = go () in (k, v)) in
+      XCompLit (p, t, kvs)
+    | "M" -> let p = nt () in let k = opt () in let v = go () in XMap (p, k, v)
+    | "s" -> let p = nt () in XSlice (p, go ())
+    | "a" -> let p = nt () in let l = opt () in let e = go () in XArray (p, l, e)
+    | "c" -> let p = nt () in let d = nn () in XChan (p, d, go ())
+    | "F" -> let p = nt () in let m = bl () in let v = bl () in
+      let ps = params () in let rs = params () in XFunc (p, m, ps, rs, v)
+    | "T" -> let p = nt () in let nf = num () in
+      let fs = List.init nf (fun _ -> ()) |> List.map (fun () ->
+        let k = num () in
+        let names = List.init k (fun _ -> ()) |> List.map (fun () -> hx (next ())) in
+        let t = go () in let tag = hx (next ()) in ((names, t), tag)) in
+      XStruct (p, fs)
+    | "N" -> XInterface (nt ())
+    | "d" -> let p = nt () in let l = go () in let r = go () in XDefault (p, l, r)
+    | "R" -> let p = nt () in XRender (p, hx (next ()))
+    | "f" -> XFuncLit (nt ())
+    | t -> raise (Bad ("unexpected " ^ t))
+  and opt () : ex option =
+    match next () with "~" -> None | "+" -> Some (go ()) | t -> raise (Bad ("bad option " ^ t))
+  and params () =
+    let n = num () in
+    List.init n (fun _ -> ()) |> List.map (fun () ->
+      let name = (match next () with "~" -> None | "+" -> Some (hx (next ())) | t -> raise (Bad ("bad name " ^ t))) in
+      let t = opt () in (name, t))
+  in
+  let e = go () in
+  if !pos <> Array.length toks then raise (Bad "trailing tokens");
+  e
+
+let rec print_ex (e : ex) : string =
+  let i = int_of_nat and n = int_of_n in
+  let b x = if x then 1 else 0 in
+  let opt o = match o with None -> "~" | Some x -> "+ " ^ print_ex x in
+  let params l = String.concat " " (string_of_int (List.length l) ::
+    List.map (fun (name, t) -> (match name with None -> "~" | Some a -> "+ " ^ xh a) ^ " " ^ opt t) l) in
+  match e with
+  | XIdent (p, a) -> Printf.sprintf "I %d %s" (i p) (xh a)
+  | XLit (p, k, s) -> Printf.sprintf "L %d %d %s" (i p) (n k) (xh s)
+  | XUn (p, op, x) -> Printf.sprintf "U %d %d %s" (i p) (n op) (print_ex x)
+  | XBin (p, op, l, r) -> Printf.sprintf "B %d %d %s %s" (i p) (n op) (print_ex l) (print_ex r)
+  | XCall (p, f, args, v) ->
+    String.concat " " (Printf.sprintf "C %d %d %d %s" (i p) (b v) (List.length args) (print_ex f) :: List.map print_ex args)
+  | XIndex (p, x, ix) -> Printf.sprintf "X %d %s %s" (i p) (print_ex x) (print_ex ix)
+  | XSlicing (p, x, lo, hi, mx, full) -> Printf.sprintf "S %d %d %s %s %s %s" (i p) (b full) (print_ex x) (opt lo) (opt hi) (opt mx)
+  | XSel (p, x, name) -> Printf.sprintf "D %d %s %s" (i p) (xh name) (print_ex x)
+  | XTypeAssert (p, x, t) -> Printf.sprintf "A %d %s %s" (i p) (print_ex x) (opt t)
+  | XCompLit (p, t, kvs) ->
+    String.concat " " (Printf.sprintf "K %d %s %d" (i p) (opt t) (List.length kvs) ::
+                       List.map (fun (k, v) -> opt k ^ " " ^ print_ex v) kvs)
+  | XMap (p, k, v) -> Printf.sprintf "M %d %s %s" (i p) (opt k) (print_ex v)
+  | XSlice (p, x) -> Printf.sprintf "s %d %s" (i p) (print_ex x)
+  | XArray (p, l, x) -> Printf.sprintf "a %d %s %s" (i p) (opt l) (print_ex x)
+  | XChan (p, d, x) -> Printf.sprintf "c %d %d %s" (i p) (n d) (print_ex x)
+  | XFunc (p, m, ps, rs, v) -> Printf.sprintf "F %d %d %d %s %s" (i p) (b m) (b v) (params ps) (params rs)
+  | XStruct (p, fs) ->
+    String.concat " " (Printf.sprintf "T %d %d" (i p) (List.length fs) ::
+      List.map (fun ((names, t), tag) ->
+        String.concat " " (string_of_int (List.length names) :: List.map xh names @ [print_ex t; xh tag])) fs)
+  | XInterface p -> Printf.sprintf "N %d" (i p)
+  | XDefault (p, l, r) -> Printf.sprintf "d %d %s %s" (i p) (print_ex l) (print_ex r)
+  | XRender (p, s) -> Printf.sprintf "R %d %s" (i p) (xh s)
+  | XFuncLit p -> Printf.sprintf "f %d" (i p)
+
+(* tokens: i:hex l:k:hex s:hex k:name o:hex ( ) [ ] { } . , : ; ... *)
+let kw_of_string (s : string) : kwd =
+  match s with
+  | "map" -> WMap | "struct" -> WStruct | "interface" -> WInterface | "func" -> WFunc | "macro" -> WMacro
+  | "chan" -> WChan | "type" -> WType | "default" -> WDefault | "render" -> WRender
+  | _ -> raise (Bad ("unknown keyword " ^ s))
+let string_of_kw (w : kwd) : string =
+  match w with
+  | WMap -> "map" | WStruct -> "struct" | WInterface -> "interface" | WFunc -> "func" | WMacro -> "macro"
+  | WChan -> "chan" | WType -> "type" | WDefault -> "default" | WRender -> "render"
+let tk_of_string (t : string) : tk =
+  match t with
+  | "(" -> KLP | ")" -> KRP | "[" -> KLBrack | "]" -> KRBrack | "{" -> KLBrace | "}" -> KRBrace
+  | "." -> KPeriod | "," -> KComma | ":" -> KColon | ";" -> KSemi | "..." -> KEllipsis
+  | _ ->
+    let rest k = String.sub t k (String.length t - k) in
+    if String.length t >= 2 && t.[1] = ':' then
+      (match t.[0] with
+       | 'i' -> KIdent (hx (rest 2))
+       | 's' -> KSym (hx (rest 2))
+       | 'k' -> KKw (kw_of_string (rest 2))
+       | 'l' ->
+         (match String.split_on_char ':' t with
+          | [_; k; h] -> KLit (n_of_int (int_of_string k), hx h)
+          | _ -> raise (Bad ("bad literal token " ^ t)))
+       | _ -> raise (Bad ("bad token " ^ t)))
+    else raise (Bad ("bad token " ^ t))
+let string_of_tk (t : tk) : string =
+  match t with
+  | KLP -> "(" | KRP -> ")" | KLBrack -> "[" | KRBrack -> "]" | KLBrace -> "{" | KRBrace -> "}"
+  | KPeriod -> "." | KComma -> "," | KColon -> ":" | KSemi -> ";" | KEllipsis -> "..."
+  | KIdent s -> "i:" ^ xh s | KSym s -> "s:" ^ xh s
+  | KKw w -> "k:" ^ string_of_kw w
+  | KLit (k, s) -> Printf.sprintf "l:%d:%s" (int_of_n k) (xh s)
+let tks_of_line (s : string) : tk list =
+  List.map tk_of_string (List.filter (fun x -> x <> "") (String.split_on_char ' ' s))
+let flag (s : string) (i : int) : bool = String.length s > i && s.[i] = '1'
+
+let print_rt (r : (ex option * tk list) xres) : string =
+  match r with
+  | ROk (Some e, rest) -> Printf.sprintf "ok:%d:%s" (List.length rest) (print_ex e)
+  | ROk (None, rest) -> Printf.sprintf "nil:%d" (List.length rest)
+  | RErr -> "syntax-error"
+  | RCrash -> "crash"
+  | RFuel -> "out-of-fuel"
+  | RUnsup -> "unsupported"
+
 let handle (f : string list) : string =
   match f with
   | ["clone"; ctx; ts] ->
@@ -156,6 +299,54 @@ let handle (f : string list) : string =
         else if String.length t > 1 && t.[0] = 's' then TSym (bytes_of_hex (String.sub t 1 (String.length t - 1)))
         else raise (Bad ("bad token " ^ t))) (List.filter (fun x -> x <> "") (String.split_on_char ' ' ts)) in
       (match c27_parse toks with Some e -> "ok:" ^ print_expr e | None -> "syntax-error")
+    with Bad m -> "driver-error:" ^ m)
+  | ["xshow"; fl; es] ->
+    (try
+      let e = parse_ex (toks_of es) in
+      (match x_show (flag fl 0) e with Some s -> "ok:" ^ xh s | None -> "panic")
+    with Bad m -> "driver-error:" ^ m)
+  | ["xtoks"; fl; es] ->
+    (try
+      let e = parse_ex (toks_of es) in
+      (match x_pp (flag fl 0) e with
+       | None -> "panic"
+       | Some ps ->
+         (match x_relex (flag fl 1) ps with
+          | LexErr -> "lex-error"
+          | LexUnsup -> "unsupported"
+          | LexOk ts -> "ok:" ^ String.concat " " (List.map string_of_tk ts)))
+    with Bad m -> "driver-error:" ^ m)
+  | ["xparse"; fl; ts] ->
+    (* fl: template, canBeSwitchGuard, canElideType, mustBeType, nextIsBlockBrace *)
+    (try
+      let toks = tks_of_line ts in
+      let flags = { fl_guard = flag fl 1; fl_elide = flag fl 2; fl_type = flag fl 3; fl_block = flag fl 4 } in
+      print_rt (x_pexpr (flag fl 0) (fuel_of toks) flags toks)
+    with Bad m -> "driver-error:" ^ m)
+  | ["xround"; fl; es; suffix] ->
+    (* fl: expanded, template, guard; suffix: the tokens that follow the expression in the source *)
+    (try
+      let e = parse_ex (toks_of es) in
+      (match x_roundtrip (flag fl 0) (flag fl 1) (flag fl 2) (tks_of_line suffix) e with
+       | RtPanic -> "panic"
+       | RtLex -> "lex-error"
+       | RtUnsup -> "unsupported"
+       | RtRes r -> print_rt r)
+    with Bad m -> "driver-error:" ^ m)
+  | ["xclaim"; fl; es; suffix; realok] ->
+    (* the theorem through the tie: a printable expression must have survived the real round trip *)
+    (try
+      let e = parse_ex (toks_of es) in
+      let nxt = (match tks_of_line suffix with [] -> None | t :: _ -> Some t) in
+      if x_printable (flag fl 0) (flag fl 1) (flag fl 2) nxt e && realok <> "1" then "printable-but-the-real-round-trip-fails"
+      else "ok"
+    with Bad m -> "driver-error:" ^ m)
+  | ["xprintable"; fl; es; suffix] ->
+    (try
+      let e = parse_ex (toks_of es) in
+      let nxt = (match tks_of_line suffix with [] -> None | t :: _ -> Some t) in
+      Printf.sprintf "%d%d" (if x_printable (flag fl 0) (flag fl 1) (flag fl 2) nxt e then 1 else 0)
+        (if x_printable_type (flag fl 0) (flag fl 1) nxt e then 1 else 0)
     with Bad m -> "driver-error:" ^ m)
   | _ -> "driver-error:unknown-command"
 
